@@ -246,4 +246,25 @@ theorem isFlat_flatAttrIter (F : Flattener π α) (evs : List (Event (AP π α))
 
 end AttrIter
 
+/-! ### builder-side flattening seen through the events it denotes -/
+
+section FlatEvents
+variable {π α : Type} [Scalar α]
+
+/-- the events denoted by the lines emitted for one curve: the chain through the flattener's
+points, after which the sub-path continues from the last of them -/
+theorem specFrom_emitLines_snoc (f c : π) (l : List (FSeg π α)) (x : FSeg π α) (prev a : List α)
+    (rest : List (Call π (List α))) :
+    specFrom (some (f, c)) (emitLines (l ++ [x]) prev a ++ rest)
+      = chain c ((l ++ [x]).map (·.b)) ++ specFrom (some (f, x.b)) rest := by
+  induction l generalizing c with
+  | nil => simp [emitLines, specFrom, chain]
+  | cons s r ih =>
+    have := ih s.b
+    simp only [emitLines, List.map_append, List.map_cons, List.map_nil, List.cons_append,
+      specFrom, chain] at this ⊢
+    rw [this]
+
+end FlatEvents
+
 end Lyon.Adapt
